@@ -131,33 +131,48 @@ def check_C11(tier, seed):
     with open(cf, "w") as f:
         for (t, pos, fn) in cases:
             f.write("%s\t%d\t%s\n" % (build.hexs(t), pos, build.hexs(fn) if fn else "-"))
-    pr = subprocess.run([binp, cf, of], env=build.BASE_ENV, timeout=1800)
-    if pr.returncode != 0:
-        raise RuntimeError("pretty harness died rc=%s" % pr.returncode)
     nontriv = set()
     seen_sig = {}
-    with open(of) as f:
-        for (t, pos, fn), line in zip(cases, f):
-            line = line.rstrip("\n")
-            if "\n" in t or any(ord(c) > 127 for c in t):
-                nontriv.add((t, pos, fn))
-            v = judge(t, pos, fn, line)
-            if v:
-                sig, msg = v
-                # one witness per class: (class, position relative to its line: start / end / middle / empty text)
-                ln, col, the_line = expected(t, pos)
-                where = "empty-text" if t == "" else ("line-start" if col == 1 and ln > 1 else ("line-end" if col == len(the_line) + 1 else "inside"))
-                key = "%s:%s" % (sig, where)
-                if key not in seen_sig:
-                    seen_sig[key] = True
-                    out.violation("pretty:" + key, "%s (text %r, position %d, file %r)" % (msg, t[:60], pos, fn),
-                                  {"text": t[:2000], "position": pos, "file": fn, "observed": line[:2000], "expected": {"line": ln, "column": col, "source_line": the_line[:500]}})
+    coloured_outputs = 0
+    # two renderings of every case: plain, and with colours forced on (what build scripts and terminals show); the
+    # oracle reads the coloured one with the escape sequences removed - the caret must still be under the column
+    for mode in ("plain", "colour"):
+        env = dict(build.BASE_ENV)
+        env.pop("NO_COLOR", None)
+        if mode == "colour":
+            env["CLICOLOR_FORCE"] = "1"
+        else:
+            env["NO_COLOR"] = "1"
+        pr = subprocess.run([binp, cf, of], env=env, timeout=1800)
+        if pr.returncode != 0:
+            raise RuntimeError("pretty harness died rc=%s" % pr.returncode)
+        with open(of) as f:
+            for (t, pos, fn), line in zip(cases, f):
+                line = line.rstrip("\n")
+                if mode == "colour" and line.startswith("ok ") and "1b5b" in line:
+                    coloured_outputs += 1
+                if "\n" in t or any(ord(c) > 127 for c in t):
+                    nontriv.add((t, pos, fn))
+                v = judge(t, pos, fn, line)
+                if v:
+                    sig, msg = v
+                    # one witness per class: (class, position relative to its line: start / end / middle / empty text)
+                    ln, col, the_line = expected(t, pos)
+                    where = "empty-text" if t == "" else ("line-start" if col == 1 and ln > 1 else ("line-end" if col == len(the_line) + 1 else "inside"))
+                    key = "%s:%s%s" % (sig, where, ":colour" if mode == "colour" else "")
+                    if key not in seen_sig:
+                        seen_sig[key] = True
+                        out.violation("pretty:" + key, "%s (text %r, position %d, file %r, %s rendering)" % (msg, t[:60], pos, fn, mode),
+                                      {"text": t[:2000], "position": pos, "file": fn, "mode": mode, "observed": line[:2000], "expected": {"line": ln, "column": col, "source_line": the_line[:500]}})
+    out.coverage["renderings"] = {"plain": len(cases), "colour_forced": len(cases), "outputs_with_escape_sequences": coloured_outputs}
+    if coloured_outputs == 0:
+        out.inconc("colour rendering not observed (forcing colours produced no escape sequences)")
     out.samples = [{"text": t, "position": pos, "file": fn} for (t, pos, fn) in (cases[5], cases[4000 % len(cases)], cases[-1])]
     out.samples[-1]["text"] = out.samples[-1]["text"][:200]
     out.coverage["bounded_exhaustive"] = {"alphabet": ALPHA, "max_len": maxlen, "cases": n_exh}
     out.coverage["random_long_texts"] = len(cases) - n_exh
     rule = ("all strings of length <= %d over {a, é, 😀, space, tab, \\n, \\r} x all boundary positions 0..=len x {no file, file name (len<=3)} (exhaustive for that bound), "
-            "plus random multi-line texts (LF and CRLF, lines up to %d chars) at positions 0 / len / just before and after newlines / random; oracle = the definition in the statement. "
+            "plus random multi-line texts (LF and CRLF, lines up to %d chars) at positions 0 / len / just before and after newlines / random; oracle = the definition in the statement; every case rendered plain and with colours forced (escape sequences removed before judging). "
             "Non-trivial: text has a newline or a multi-byte character; distinct (text, position, file).") % (maxlen, 500 if tier == "quick" else 2000)
-    return out.finish(len(cases), len(nontriv), rule, exhaustive=False, floor=100,
+    return out.finish(2 * len(cases), len(nontriv), rule, exhaustive=False, floor=100,
                       extra={"exhaustive_part": True})
